@@ -88,11 +88,29 @@ def run(facts, res):
             rdu = du_of(rb)
             rcfg = cfg_of(rb)
             bases = set()
-            for bi, t in rb.calls():
-                if t.callee is not None and t.callee.target() == "utils::apply_diff_patch" and t.args:
-                    for x in walk(rdu.operand_term(t.args[0], 6)):
-                        if x[0] == "var":
-                            bases.add(x[1])
+            scripts = set()
+            from ..conds import capture_term
+            for ab_ in [rb] + facts.closures_of(rb.path):
+                adu = du_of(ab_)
+                for bi, t in ab_.calls():
+                    if t.callee is None or t.callee.target() != "utils::apply_diff_patch" or len(t.args) < 2:
+                        continue
+                    if ab_ is rb:
+                        bases |= {x[1] for x in walk(rdu.operand_term(t.args[0], 6)) if x[0] == "var"}
+                        scripts |= {x[1] for x in walk(rdu.operand_term(t.args[1], 44)) if x[0] == "var"}
+                    else:
+                        # `descriptors.iter().rev().try_for_each(|d| apply_diff_patch(&mut order, ..))`: the base is a captured
+                        # variable, the scripts are the elements of the chain the closure is applied to
+                        for x in walk(adu.operand_term(t.args[0], 8)):
+                            if x[0] == "upvar":
+                                ct = capture_term(ab_, x[1], facts)
+                                while ct is not None and ct[0] in ("ref", "deref", "cast"):
+                                    ct = ct[1]
+                                if ct is not None and ct[0] == "var":
+                                    bases.add(ct[1])
+                        for cs in cg.callers_of(ab_.path):
+                            if ab_ in cs.closures and cs.body is rb and cs.term.args:
+                                scripts |= {y[1] for y in walk(rdu.operand_term(cs.term.args[0], 44)) if y[0] == "var"}
             n_as = 0
             for blk in rb.blocks:
                 if blk.cleanup:
@@ -112,12 +130,6 @@ def run(facts, res):
             # after pushing that version's edit script (or it assigns the base and leaves, E1c); skipping a version - e.g. a
             # deletion marker, whose order is the empty array - applies later scripts to the wrong base
             from .. import iters as _it
-            scripts = set()
-            for bi, t in rb.calls():
-                if t.callee is not None and t.callee.target() == "utils::apply_diff_patch" and len(t.args) > 1:
-                    for x in walk(rdu.operand_term(t.args[1], 44)):
-                        if x[0] == "var":
-                            scripts.add(x[1])
             pushes = [bi for bi, t in rb.calls() if t.callee is not None and t.callee.name in ("push", "push_back", "insert") and t.args and
                       any(x[0] == "var" and x[1] in scripts for x in walk(rdu.operand_term(t.args[0], 8)))]
             base_as = [blk.idx for blk in rb.blocks if not blk.cleanup for st in blk.stmts
